@@ -227,6 +227,25 @@ fn hand_sets() -> Vec<SetCase> {
                 ("c.html", "{% extends \"p.html\" %}{% block t %}{{ super() }}{{ a.y * 2 }}{% if a.x.y %}{{ a.x.y.z }}{% endif %}{% endblock %}"),
             ]),
         },
+        // names of the render context re-bound by a loop variable / set of an includer two and three
+        // levels up, read through fused paths in the innermost template (no loop or set active in between)
+        SetCase {
+            label: "hand:include-shadow-2".into(),
+            templates: v(&[
+                ("i2", "[{{ a.x }}|{{ a.y | default(value=\"d\") }}|{% if a.x %}T{% endif %}|{{ c }}|{{ c.z | default(value=\"nz\") }}]"),
+                ("i1", "<{% include \"i2\" %}>"),
+                ("top", "{% for a in b %}{% include \"i1\" %}{% endfor %}{% set c = {\"z\": \"setz\"} %}{% include \"i1\" %}{% include \"i2\" %}"),
+            ]),
+        },
+        SetCase {
+            label: "hand:include-shadow-3".into(),
+            templates: v(&[
+                ("i3", "[{{ a.x }}{{ a.y | default(value=\"d\") }}{{ c.z | default(value=\"nz\") }}{% for q in [1] %}{{ a.x }}{% endfor %}]"),
+                ("i2", "({% include \"i3\" %})"),
+                ("i1", "<{% include \"i2\" %}>"),
+                ("top", "{% set a = {\"x\": \"setx\"} %}{% include \"i1\" %}{% for c in b %}{% include \"i1\" %}{% endfor %}"),
+            ]),
+        },
         SetCase {
             label: "hand:include-chain".into(),
             templates: v(&[
